@@ -166,7 +166,7 @@ def one(ctx: Ctx, cs, n_pairs=80, long=False):
                         u = c.obj.union_sigs()
                         for nt in c.obj.notes:
                             if nt.rest:
-                                exp_notes.append(nt.canonical_kern(u))
+                                exp_notes.append(nt.canonical_kern(c.obj.union_for(nt)))
                                 continue
                             import copy
                             n2 = copy.copy(nt)
